@@ -329,7 +329,14 @@ def run_unit(unit, rng, ctx):
     try:
         with warnings.catch_warnings():
             warnings.simplefilter('ignore')
-            tr = traj.transitions_between_sites(sites=sites, floating_specie='Li', site_radius=arg, site_inner_fraction=f)
+            if unit['i'] % 2:
+                # the other public entry point
+                from gemdat.transitions import Transitions
+
+                tr = Transitions.from_trajectory(trajectory=traj, sites=sites, floating_specie='Li', site_radius=arg, site_inner_fraction=f)
+                ctx.count('via_Transitions.from_trajectory')
+            else:
+                tr = traj.transitions_between_sites(sites=sites, floating_specie='Li', site_radius=arg, site_inner_fraction=f)
     except ValueError as exc:
         if mode == 'auto' and 'too close' in str(exc) and dmin < 0.5 + 0.011:
             ctx.count('auto_radius_sites_too_close_error')
